@@ -17,10 +17,13 @@ from lib import hir as H
 from lib import tables as T
 from lib import boolform as B
 from lib import c09_util as U
+from lib import c06_util as N
 
 SPEC = os.path.join(os.path.dirname(os.path.dirname(os.path.abspath(__file__))), "spec", "dummy_filters.json")
 ACTION = "quill::tree::mappings_diff::action::Action"
 ORDER = ("class", "field", "method", "parameter")
+# value of Namespaces::get_namespace(self, name) as a normal-form term (notation of lib/c06_util)
+NS_VALUE = '#Namespace(position($self.names, lam(bin("==", elem($self.names), $name))))'
 
 CLAIM = {
     "text": "Decided on the typed HIR of the two filters: (R10.1) in Mappings::remove_dummy the four nested `retain` closures exist on "
@@ -397,70 +400,19 @@ def _ns_lookup(q, R, rid, outer_keys):
         return
     pids = H.param_ids(inner)
     ok, got = False, None
+    want = N.parse(NS_VALUE, N.build_env(["self", "name"]))
     if len(pids) == 2:
-        ok, got = _search_loop(inner, pids)
-        if not ok:
-            ok2, got2 = _search_position(inner, pids)
-            if ok2 or got is None:
-                ok, got = ok2, got2
+        # normal form of the function's value (lib/c06_util): a search loop with early return, `position` followed by
+        # match / if let / let-else / `?` / `.map(Namespace).context(..)`, `Namespace(i)` / `Self(i)` all give the same term;
+        # the not-found exit must be an error (a default index would show up as orelse / case / if in the term)
+        act = N.result_term(N.Norm(inner, ["self", "name"]))
+        got = N.show(act) if act is not None else "<a `return` inside a construct that is not a search loop>"
+        ok = act == want
+        if U.unmodelled_mutations(inner["body"]):
+            ok, got = False, "mutation in the lookup function"
     R.inst(rid, "ns-lookup:Namespaces.get_namespace", ok, sp=inner["sp"], got=got,
-           expect="Ok(Namespace(i)) for the position i of the name equal to the argument (loop with early return, or `position`)",
+           expect="%s: Ok(Namespace(i)) for the position i of the first name equal to the argument, otherwise an error" % N.show(want),
            detail="the namespace id is the position of the equal name")
-
-
-def _eq_of(cond, x_id, y_id):
-    c0 = H.peel(cond, refs=False)
-    if c0.get("k") == "bin" and c0["op"] == "==":
-        ids = {(H.local_of(c0["l"]) or (None,))[0], (H.local_of(c0["r"]) or (None,))[0]}
-        return ids == {x_id, y_id}
-    return False
-
-
-def _search_loop(inner, pids):
-    """for (id, ns) in self.names.iter().enumerate() { if ns == name { return Ok(Namespace(id)) } }"""
-    fors = [n for n in H.walk(inner["body"]) if n.get("k") == "for"]
-    if len(fors) != 1:
-        return False, None
-    fr = fors[0]
-    binds = H.pat_bindings(fr["pat"])
-    it = H.peel(fr["iter"])
-    root, path = H.place_root(it["recv"]) if it.get("k") == "mcall" and it["name"] == "enumerate" else (None, [])
-    rets = [n for n in H.walk(fr["body"]) if n.get("k") == "ret" and "e" in n]
-    if not (len(binds) == 2 and root and root[0] == pids[0] and _plain(path) == ["names"] and len(rets) == 1):
-        return False, H.render(fr)[:160]
-    idx_id, el_id = binds[0][0], binds[1][0]
-    r = H.peel(rets[0]["e"])
-    ctor_ok = False
-    if r.get("k") == "call" and (H.ctor_of(r) or (None, None))[1] == "Ok" and len(r["args"]) == 1:
-        c = H.peel(r["args"][0])
-        if c.get("k") == "call" and (H.ctor_of(c) or ("", None))[0] == "quill::tree::names::Namespace" and len(c["args"]) == 1:
-            l = H.local_of(c["args"][0])
-            ctor_ok = bool(l) and l[0] == idx_id
-    conds = [c for c in H.path_conditions(fr["body"], rets[0]) if c[0] == "if" and c[2] is True]
-    cond_ok = len(conds) == 1 and _eq_of(conds[0][1], el_id, pids[1])
-    return ctor_ok and cond_ok, H.render(r)
-
-
-def _search_position(inner, pids):
-    """self.names.iter().position(|ns| ns == name) -> Some(i) => Ok(Namespace(i)), None => Err   (match / if let / let-else)"""
-    poss = [n for n in H.walk(inner["body"]) if n.get("k") == "mcall" and n["name"] == "position"]
-    if len(poss) != 1:
-        return False, None
-    p = poss[0]
-    root, path = H.place_root(p["recv"])
-    clo = H.peel(p["args"][0]) if p["args"] else {}
-    pred_ok = (bool(root) and root[0] == pids[0] and _plain(path) == ["names"] and clo.get("k") == "closure" and len(clo["params"]) == 1
-               and clo["params"][0].get("k") == "bind" and _eq_of(clo["body"], clo["params"][0]["id"], pids[1]))
-    if not pred_ok:
-        return False, H.render(p)[:160]
-    if U.unmodelled_mutations(inner["body"]):
-        return False, "mutation in the lookup function"
-    res = {}
-    for cell, pv in (("found", T.V("Some", T.sym("$pos"))), ("absent", T.V("None"))):
-        e = U.Ev(calls={"position": lambda args, pv=pv: pv})
-        res[cell] = e.run_fn(U.norm_body(inner), [T.sym("self"), T.sym("name")])
-    ok = res["found"] == T.V("Ok", T.V("Namespace", T.sym("$pos"))) and res["absent"][0] == "err"
-    return ok, "found: %s; absent: %s" % (T.show(res["found"]), T.show(res["absent"]))
 
 
 # ===================================================================================== R10.2
